@@ -41,6 +41,14 @@ fn b64(s: &str) -> String {
 }
 
 pub fn make_core(authn: &Authn, establish_ms: u64) -> Core {
+    make_core_with_shutdown(authn, establish_ms, Shutdown::new())
+}
+
+pub fn plain_core(shutdown: Arc<std::sync::Mutex<Shutdown>>) -> Core {
+    make_core_with_shutdown(&Authn::None, 30_000, shutdown)
+}
+
+fn make_core_with_shutdown(authn: &Authn, establish_ms: u64, shutdown: Arc<std::sync::Mutex<Shutdown>>) -> Core {
     let settings = Settings::builder()
         .listen_address(("127.0.0.1", 1))
         .unwrap()
@@ -68,7 +76,7 @@ pub fn make_core(authn: &Authn, establish_ms: u64) -> Core {
         ))),
         Authn::Scripted(t, s) => Some(Arc::new(Scripted { tokens: t.clone(), snis: s.clone() })),
     };
-    Core::new(settings, a, hosts, Shutdown::new()).unwrap()
+    Core::new(settings, a, hosts, shutdown).unwrap()
 }
 
 fn authn_tok(a: &Authn) -> String {
